@@ -50,8 +50,8 @@ ANY_AGG_B = ("COVARIANCE", "CORRELATION", "L0", "L1", "L2", "LINF", "EQUAL")
 DOMAIN_ERRORS = (Exception,)
 C04_OPS = ("add_obs", "sort", "insert_chrono", "insert_at", "remove_list", "remove_obs", "remove_first",
            "remove_last", "extract", "span", "concat", "mod_n", "mod_pattern", "gt", "lt", "set_obs",
-           "fork_reverse", "fork_span", "edit_time")
-C17_OPS = ("abs_curv", "speed")
+           "fork_reverse", "fork_span", "edit_time", "slice", "pop_obs")
+C17_OPS = ("abs_curv", "speed", "speed_direct", "ds")
 
 
 def feq(a, b):
@@ -214,7 +214,7 @@ class TrackWorld(World):
             tf[6] = r.choice([1, 500, 999])
         # z carries the unique tag of the observation (no operation of the workload writes z);
         # x and y repeat so that zero-length legs and revisited positions occur
-        return [r.choice([0.0, 1.0, 1.00002, 3.5, -2.0, 1000.25, r.uniform(-50, 50)]),
+        return [r.choice([0.0, 1.0, 1.00002, 3.5, -2.0, 1000.25, r.uniform(-50, 50), r.choice([4.0e6, -7.5e6, 123456.5])]),
                 r.choice([0.0, 0.00001, 2.0, -1.5, 0.001, r.uniform(-50, 50)]), self._tag(), tf]
 
     def _gen_size(self, r):
@@ -407,13 +407,14 @@ class TrackWorld(World):
     def _g_insert_chrono(self, r, m):
         if not self._sorted(m) and not m["names"]:
             return {"op": "sort"}
+        api = r.choice(["insertObs", "insertObs", "chrono"])
         o = self._gen_obs(r)
         if m["obs"] and r.random() < 0.6:      # before / equal-to / after existing instants
             ref = list(r.choice(m["obs"])["t"])
             d = r.choice([-1, 0, 0, 1])
             ref[5] = max(0, min(59, ref[5] + d))
             o[3] = ref
-        return {"obs": o}
+        return {"obs": o, "api": api}
 
     def _g_insert_at(self, r, m):
         return {"obs": self._gen_obs(r), "i": r.randrange(64)}
@@ -458,6 +459,20 @@ class TrackWorld(World):
 
     def _g_lt(self, r, m):
         return {"n": r.randrange(64)}
+
+    def _g_slice(self, r, m):
+        def b():
+            return None if r.random() < 0.25 else r.randint(-20, 20)
+        return {"i": b(), "j": b(), "k": r.choice([None, None, 1, 2, 3, -1, -2])}
+
+    def _g_pop_obs(self, r, m):
+        return {"i": r.randrange(64)}
+
+    def _g_speed_direct(self, r, m):
+        return {}
+
+    def _g_ds(self, r, m):
+        return {}
 
     def _g_abs_curv(self, r, m):
         if "abs_curv" in m["names"] and r.random() < 0.5:
@@ -526,6 +541,34 @@ class TrackWorld(World):
             if got != list(o["t"]):
                 return self.fail(prop, "table.timestamp", "%s: timestamp of observation %d of session %d" % (where, i, s),
                                  list(o["t"]), got)
+        if n:
+            # the other documented ways of reading the sequence (C04 observe_at): list, iteration,
+            # coordinate / time vectors
+            tags = [o["z"] for o in m["obs"]]
+            for how, got in (("getObsList()", [o.position.getZ() for o in t.getObsList()]),
+                             ("iteration", [o.position.getZ() for o in t]),
+                             ("getZ()", list(t.getZ()))):
+                if got != tags:
+                    return self.fail(prop, "table.sequence", "%s: observations of session %d read through %s"
+                                     % (where, s, how), tags, got)
+            gt = [[ts.year, ts.month, ts.day, ts.hour, ts.min, ts.sec, ts.ms] for ts in t.getTimestamps()]
+            if gt != [list(o["t"]) for o in m["obs"]]:
+                return self.fail(prop, "table.timestamp", "%s: getTimestamps() of session %d" % (where, s),
+                                 [list(o["t"]) for o in m["obs"]], gt)
+            if not (leq(list(t.getX()), [o["x"] for o in m["obs"]]) and leq(list(t.getY()), [o["y"] for o in m["obs"]])):
+                return self.fail(prop, "table.position", "%s: getX() / getY() of session %d" % (where, s),
+                                 [[o["x"], o["y"]] for o in m["obs"]], [list(t.getX()), list(t.getY())])
+        if m["names"]:
+            names = list(m["names"])
+            k = self.step_index % len(names)
+            two = [names[k], names[(k + 1) % len(names)]]
+            got = t.getAnalyticalFeatures(two)
+            if len(got) != 2 or not all(leq(list(g), self._col(m, nm)) for g, nm in zip(got, two)):
+                return self.fail(prop, "table.values", "%s: getAnalyticalFeatures(%r) of session %d" % (where, two, s),
+                                 jsonable([self._col(m, nm) for nm in two]), jsonable([list(g) for g in got]))
+            if any(not t.hasAnalyticalFeature(nm) for nm in names):
+                return self.fail(prop, "table.names", "%s: hasAnalyticalFeature of a listed name is false" % where,
+                                 names, [nm for nm in names if not t.hasAnalyticalFeature(nm)])
         for name in m["names"]:
             got = t[name]
             exp = self._col(m, name)
@@ -1369,7 +1412,10 @@ class TrackWorld(World):
             self.probe("insert_equal_to_last")
         if n and tuple(new["t"]) < tuple(m["obs"][0]["t"]):
             self.probe("insert_before_first")
-        _, exc = self.call(t.insertObs, self._mk_obs(st["obs"]))
+        if st.get("api") == "chrono":
+            _, exc = self.call(t.insertObsInChronoOrder, self._mk_obs(st["obs"]))
+        else:
+            _, exc = self.call(t.insertObs, self._mk_obs(st["obs"]))
         if exc is not None:
             return self._unexpected("C04", exc, "insertObs (chronological)")
         if self._adopt_order("C04", t, m, list(m["obs"]) + [new], "chronological insert"):
@@ -1453,6 +1499,36 @@ class TrackWorld(World):
         i, j = sorted((st["i"] % n, st["j"] % n))
         self._derive(st, "extract(%d, %d)" % (i, j), lambda: t.extract(i, j), m["obs"][i:j + 1], m)
 
+    def op_slice(self, st):
+        """track[i:j:k] -- index extraction through the bracket operator."""
+        t, m = self._sess(st)
+        if not m["obs"]:
+            raise Skip()
+        sl = slice(st.get("i"), st.get("j"), st.get("k"))
+        exp = m["obs"][sl]
+        if (st.get("k") or 1) < 0:
+            self.probe("slice_with_negative_step")
+        self._derive(st, "t[%s:%s:%s]" % (st.get("i"), st.get("j"), st.get("k")), lambda: t[sl], exp, m)
+
+    def op_pop_obs(self, st):
+        t, m = self._sess(st)
+        n = len(m["obs"])
+        if n == 0:
+            raise Skip()
+        i = st["i"] % n
+        tag = m["obs"][i]["z"]
+        exp_left = [o for k, o in enumerate(m["obs"]) if k != i]
+        rv, exc = self.call(t.popObs, i)
+        if exc is not None:
+            return self._unexpected("C04", exc, "popObs(%d)" % i)
+        m["obs"] = exp_left
+        m["geo"] += 1
+        if rv is None or not hasattr(rv, "position") or rv.position.getZ() != tag:
+            self.fail("C04", "remove.popped", "popObs(%d) must return the observation it removed" % i, tag,
+                      None if rv is None or not hasattr(rv, "position") else rv.position.getZ())
+            return
+        self._check_all("C04", "popObs(%d)" % i)
+
     def op_span(self, st):
         from tracklib.core import ObsTime
         t, m = self._sess(st)
@@ -1534,12 +1610,12 @@ class TrackWorld(World):
             out.append(NAN if dt == 0 else math.sqrt((a["x"] - b["x"]) ** 2 + (a["y"] - b["y"]) ** 2) / dt)
         return out
 
-    def _c17(self, st, name, definition, call, where):
+    def _c17(self, st, name, definition, call, where, direct=False):
         t, m = self._sess(st)
         n = len(m["obs"])
-        if n < 2 or "ds" in m["names"]:
+        if n < 2 or ("ds" in m["names"] and name != "abs_curv"):
             raise Skip()
-        cached = name in m["names"]
+        cached = name in m["names"] and not direct
         judged = True
         if not self._sorted(m):
             judged = False
@@ -1547,6 +1623,14 @@ class TrackWorld(World):
         if cached:
             self.probe("repeated_computation_on_cached_feature")
             if m["fresh"].get(name) != m["geo"]:
+                judged = False
+                self.probe("stale_cache_served")
+        had_ds = "ds" in m["names"]
+        stale_ds = had_ds and m["fresh"].get("ds") != m["geo"]
+        if had_ds:
+            # computeAbsCurv integrates a leg-length feature that is already there and then removes it
+            self.probe("abs_curv_from_existing_ds")
+            if not cached and m["fresh"].get("ds") != m["geo"]:
                 judged = False
                 self.probe("stale_cache_served")
         rv, exc = self.call(call, t)
@@ -1566,6 +1650,11 @@ class TrackWorld(World):
                     self.fail("C17", "abs_curv.monotone", where + ": must start at 0 and never decrease",
                               jsonable(exp), jsonable(rv))
                     return
+        if had_ds:
+            if "ds" in t.getListAnalyticalFeatures():
+                self.fail("C17", "table.names", where + ": the leg-length feature 'ds' is still listed", [], ["ds"])
+                return
+            self._delcol(m, "ds")
         if cached:
             if not leq(rv, stored) and judged:
                 self.fail("C17", name + ".repeat", where + ": repeated computation returned other values than "
@@ -1578,12 +1667,54 @@ class TrackWorld(World):
                     self.fail("C17", name + ".stored", where + ": stored feature differs from the returned list",
                               jsonable(rv), jsonable(self._col(m, name)))
                     return
-                m["fresh"][name] = m["geo"]
+                # a result integrated from a leg-length feature that predates a geometry edit is itself stale
+                m["fresh"][name] = m["geo"] if not (had_ds and stale_ds) else -1
             else:
                 self.fail("C17", name + ".stored", where + ": feature is not listed after computation",
                           name, t.getListAnalyticalFeatures())
                 return
+        getter = t.getAbsCurv if name == "abs_curv" else t.getSpeed
+        g, exc = self.call(getter)
+        if exc is not None or not leq(list(g), self._col(m, name)):
+            self.fail("C17", name + ".stored", where + ": %s() differs from the stored feature" % getter.__name__,
+                      jsonable(self._col(m, name)), repr(exc) if exc is not None else jsonable(list(g)))
+            return
         self._check_all("C17", where + " (positions, timestamps and other features must be unchanged)")
+        self.observed(jsonable(rv))
+
+    def op_speed_direct(self, st):
+        """The speed algorithm applied through addAnalyticalFeature: always recomputes, so it
+        is judged also after the geometry or the timestamps were edited."""
+        from tracklib.algo.analytics import speed
+        if "speed" in self._sess(st)[1]["names"]:
+            self.probe("speed_recomputed_over_a_stored_one")
+        return self._c17(st, "speed", self._def_speed, lambda t: t.addAnalyticalFeature(speed),
+                         "addAnalyticalFeature(speed)", direct=True)
+
+    def op_ds(self, st):
+        """Leg lengths (analytics.ds) stored under the name computeAbsCurv uses."""
+        from tracklib.algo.analytics import ds
+        t, m = self._sess(st)
+        n = len(m["obs"])
+        if n < 1:
+            raise Skip()
+        rv, exc = self.call(t.addAnalyticalFeature, ds, "ds")
+        if exc is not None:
+            return self._unexpected("C17", exc, "addAnalyticalFeature(ds)")
+        ac = self._def_abs_curv(m)
+        exp = [0.0] + [math.sqrt((a["x"] - b["x"]) ** 2 + (a["y"] - b["y"]) ** 2)
+                       for a, b in zip(m["obs"], m["obs"][1:])]
+        rv = list(rv)
+        if len(rv) != n or any(not close(a, b) for a, b in zip(rv, exp)):
+            self.fail("C17", "ds.definition", "addAnalyticalFeature(ds): leg lengths", jsonable(exp), jsonable(rv))
+            return
+        if "ds" not in t.getListAnalyticalFeatures():
+            self.fail("C17", "ds.stored", "addAnalyticalFeature(ds): feature is not listed", "ds",
+                      t.getListAnalyticalFeatures())
+            return
+        self._setcol(m, "ds", list(t["ds"]))
+        m["fresh"]["ds"] = m["geo"]
+        self._check_all("C17", "addAnalyticalFeature(ds)")
         self.observed(jsonable(rv))
 
     def op_abs_curv(self, st):
